@@ -115,7 +115,7 @@ func hostileData() map[string]any {
 	}
 }
 
-// trees whose files play unusual parts (none refers to itself, so every render ends)
+// trees whose files play unusual parts (every render has to end: with output or with an error)
 var oddTrees = []map[string]string{
 	{"page.tw": `a@component("~x")b`, "components/x.tw": `@use("~l")@insert("r", 1)X`, "layouts/l.tw": `<@reserve("r")>`},
 	{"page.tw": `a@component("~x")b`, "components/x.tw": "line1\n@use(\"~l\")X", "layouts/l.tw": `<@reserve("r")>`},
@@ -141,6 +141,16 @@ var oddTrees = []map[string]string{
 	{"page.tw": `@dump(a)@dump()@dump(a, items, nope)`},
 	{"page.tw": `@component("~x", {loop: 1})`, "components/x.tw": `{{ loop }}`},
 	{"page.tw": `@component("~x", {a: b})`, "components/x.tw": `{{ a }}`},
+	// the use statement inside the blocks its own layout renders
+	{"page.tw": `@insert("r")x@use("~l")y@end`, "layouts/l.tw": `<@reserve("r")>`},
+	{"page.tw": `@use("~l")@insert("r")@if(true)@use("~l")@end@end`, "layouts/l.tw": `<@reserve("r")>`},
+	{"page.tw": `@use("~l")@insert("r")@each(v in [1, 2])@use("~l")@end@end`, "layouts/l.tw": `<@reserve("r")>`},
+	{"page.tw": `@use("~l")@insert("r")@if(a)@use("~l")@end@end`, "layouts/l.tw": `<@reserve("r")>`},
+	{"page.tw": `@use("~l")@insert("r")@component("~x")@slot@use("~l")@end@end@end`, "layouts/l.tw": `<@reserve("r")>`, "components/x.tw": `X@slot`},
+	{"page.tw": `@insert("a")@use("~l")@end@insert("b", 1)`, "layouts/l.tw": `<@reserve("a")|@reserve("b")>`},
+	{"page.tw": `@insert("a", 1)@insert("b")@for(i = 0; i < 2; i++)@use("~l")@end@end`, "layouts/l.tw": `@if(true)<@reserve("a")|@reserve("b")>@end`},
+	{"page.tw": `@component("~x")@slot@use("~l")@insert("r")in@end@end@end`, "layouts/l.tw": `<@reserve("r")>`, "components/x.tw": `X@slot`},
+	{"page.tw": `@each(v in [1, 2])@use("~l")@insert("r"){{ v }}@end@end`, "layouts/l.tw": `<@reserve("r")>`},
 }
 
 func manyInts(n int) []int {
